@@ -184,3 +184,27 @@ Proof.
     + apply sort_srt. apply (Permutation_NoDup (Permutation_map fst P)). exact Hnd.
     + rewrite (sort_perm l1), (sort_perm l2). exact P.
 Qed.
+
+(* ---- a memo table in front of a pure function is transparent ---- *)
+Section MemoP.
+Variables (K V : Type) (f : K -> V) (keqb : K -> K -> bool).
+Hypothesis keqb_spec : forall a b, keqb a b = true <-> a = b.
+
+Definition minv (t : list (K * V)) : Prop := forall k v, In (k, v) t -> v = f k.
+
+Lemma mlookup_in t k v : mlookup K V keqb t k = Some v -> In (k, v) t.
+Proof.
+  induction t as [|[k' v'] t IH]; simpl; [discriminate|].
+  destruct (keqb k k') eqn:E.
+  - intros H. injection H as <-. apply keqb_spec in E. subst. left. reflexivity.
+  - intros H. right. apply IH. exact H.
+Qed.
+
+Lemma mrun_transparent ks : forall t, minv t -> mrun K V f keqb ks t = map f ks.
+Proof.
+  induction ks as [|k ks IH]; intros t Ht; simpl; [reflexivity|].
+  unfold mget. destruct (mlookup K V keqb t k) as [v|] eqn:E.
+  - rewrite IH by exact Ht. f_equal. apply Ht. apply mlookup_in. exact E.
+  - rewrite IH; [reflexivity|]. intros k' v' [H|H]; [injection H as <- <-; reflexivity|apply Ht; exact H].
+Qed.
+End MemoP.
